@@ -204,6 +204,44 @@ class Check:
             json.dump(ev, f, indent=1)
 
 
+class Remap:
+    """View of a Check that files selected rules of another property's rule set under rule ids of this property (a property that
+    depends on the same code obligation reports it itself instead of relying on the other check being run).  Rules that are not
+    in the mapping are evaluated but not recorded; `skip` names (rule, instance) pairs that stay with their home property."""
+
+    def __init__(self, chk: "Check", mapping: Dict[str, str], skip=()):
+        self._chk, self._map, self._skip = chk, dict(mapping), set(skip)
+        self.model, self.pid, self.tier = chk.model, chk.pid, chk.tier
+
+    def rule(self, rule_id, text):
+        if rule_id in self._map and self._map[rule_id] not in self._chk.rules:
+            self._chk.rule(self._map[rule_id], text)
+
+    def loc(self, fi_or_path, node=None):
+        return self._chk.loc(fi_or_path, node)
+
+    def used(self, *qualnames):
+        self._chk.used(*qualnames)
+
+    def add(self, rule, instance, ok, detail, loc="", **extra):
+        if rule in self._map and (rule, instance) not in self._skip:
+            return self._chk.add(self._map[rule], instance, ok, detail, loc, **extra)
+        return None
+
+    def holds(self, rule, instance, detail, loc="", **extra):
+        return self.add(rule, instance, True, detail, loc, **extra)
+
+    def violation(self, rule, instance, detail, loc="", **extra):
+        return self.add(rule, instance, False, detail, loc, **extra)
+
+    def unknown(self, rule, instance, detail, loc="", **extra):
+        return self.add(rule, instance, None, detail, loc, **extra)
+
+    def floor(self, rule, what, count, minimum):
+        if rule in self._map:
+            self._chk.floor(self._map[rule], what, count, minimum)
+
+
 def _jsonable(x):
     try:
         json.dumps(x)
